@@ -174,6 +174,7 @@ var vC03StmtHeads = []string{"5", "x = 5; x", "2d6kh1", "[1, 2]"}
 var vC03StmtSeps = []string{"\n", "; ", ";\n", " ;"}
 var vC03StmtTails = []string{
 	"if 1 { a = 2", "if 1 { a = 2 } else { a = 3", "while 1 { a = 2", "func fn1() { a = 2", "if 1 { a = 2 } else if", "while a < 3 { a = a + 1; break",
+	"x(3, ", "y = x(3, [4", "x.len(1,", "x(1)(2, ", "x(1, 2", "x[0](3, ",
 	"if", "while", "func", "func fn1(", "if 1 { return 2", "&c = ", "a = ", "a = 2; if 1 { b = 3", "`{% a = 2 ", "^st力量", "if 1 {", "break", "return",
 }
 
@@ -181,7 +182,7 @@ func init() {
 	vHarnesses["VH_C03_stmt"] = VH_C03_stmt
 }
 
-//vh:prop=C03 tiers=quick,thorough sigkeys=head,sep,tail overrides=formatFriendlyError budget_s=900 bounds="4 valid programs x 4 statement separators x 19 broken-off statements (if / else / else-if / while / func / return / break / computed and plain assignment / template block / st command cut at various points): the run either fails as a whole or its value, process text and variables are those of Matched evaluated alone (checked as in VH_C03_tail)"
+//vh:prop=C03 tiers=quick,thorough sigkeys=head,sep,tail overrides=formatFriendlyError budget_s=900 bounds="4 valid programs x 4 statement separators x 25 broken-off statements and calls (a call cut after a complete first argument, if / else / else-if / while / func / return / break / computed and plain assignment / template block / st command cut at various points): the run either fails as a whole or its value, process text and variables are those of Matched evaluated alone (checked as in VH_C03_tail)"
 func VH_C03_stmt() {
 	h := vC03StmtHeads[vChoice("head", len(vC03StmtHeads))]
 	sp := vC03StmtSeps[vChoice("sep", len(vC03StmtSeps))]
